@@ -614,4 +614,12 @@ def octaRowOK (t : OctaT) (row : Bytes) : Bool :=
       Float32.ofBits z.toUInt32)).1 ≤ t.center)
   | _ => true
 
+/-- output-level form of the hypothesis on normals (weaker than `octaRowOK`, which implies it —
+    `octaRow_entry`): the octahedral coordinates the encoder computed for this normal are a canonical
+    point of the grid `[0, max_value_]²` -/
+def octaEntryOK (t : OctaT) (e : List Int) : Bool :=
+  match e with
+  | [a, b] => decide (Octa.inGrid t (a, b)) && decide (Octa.canonical t (a, b))
+  | _ => false
+
 end Draco.SeqEnc
